@@ -65,3 +65,36 @@ Definition c04_stage : zstage :=
 Example C04_example :
   wf c04_stage (1, 1) = true /\ sdims c04_stage (1, 1) = (5, 6) /\ min_samples c04_stage = 4.
 Proof. vm_compute. repeat split; reflexivity. Qed.
+
+(* ---------- the bookkeeping formulas obtained by SYMBOLIC EXECUTION of the working tree
+   (tools/gen_dims.py -> Gen/Dims.v) are those of the model the theorems above are about *)
+From PK Require Import BridgeC04.
+From PK.Gen Require Import Dims.
+
+Theorem C04_generated_delay : forall (T : Type) dx du ns nu n,
+  let g := gen_delay_fit ns nu dx du in
+  leaf_dims (@LDelay T dx du) (ns, nu) = (fst (fst g), snd (fst g)) /\
+  leaf_samples_in (@LDelay T dx du) 1 = snd g /\
+  leaf_samples_in (@LDelay T dx du) n = gen_delay_samples_in dx du n.
+Proof.
+  intros T dx du ns nu n. split; [apply gen_delay_model | split; [apply gen_delay_model | apply gen_delay_samples_in_model]].
+Qed.
+Print Assumptions C04_generated_delay.
+
+Theorem C04_generated_leaves : forall (T : Type) id (centers : list (list T)) nf ns nu,
+  leaf_dims (@LBilinear T) (ns, nu) = gen_bilinear_fit ns nu /\
+  leaf_dims (@LConst T) (ns, nu) = gen_const_fit ns nu /\
+  leaf_dims (LRbf id centers) (ns, nu) = gen_rbf_fit ns nu (length centers) /\
+  leaf_dims (@LKernel T id nf) (ns, nu) = gen_kernel_fit ns nu nf /\
+  leaf_dims (@LSk T id) (ns, nu) = gen_sk_fit ns nu.
+Proof.
+  intros. exact (conj (gen_bilinear_model T ns nu) (conj (gen_const_model T ns nu)
+    (conj (gen_rbf_model T id centers ns nu) (conj (gen_kernel_model T id nf ns nu) (gen_sk_model T id ns nu))))).
+Qed.
+Print Assumptions C04_generated_leaves.
+
+Theorem C04_generated_fit_attrs : forall nx nu nk (ep : bool),
+  gen_indep_fit_attrs nx nu ep = (nx, nu, (if ep then 1 else 0) + nx + nu, 1) /\
+  gen_dep_fit_attrs nx nu nk ep = (nx, nu, (if ep then 1 else 0) + nx + nu, nk).
+Proof. exact gen_fit_attrs. Qed.
+Print Assumptions C04_generated_fit_attrs.
